@@ -420,6 +420,7 @@ def c13():
         j("c13_clone_from_foo_2", T, 200, "clone_from N=2, all lookup paths"),
         j("c13_clone_from_tri_2", T, 400, "clone_from, 3 columns"),
         j("c13_clone_two_archetypes_2_3", Q, 150, "two populated archetypes: each archetype of the clone equals the same archetype of the original; with_capacity maps capacities per archetype"),
+        J("c17_clone_events_2", Q, 150, what="feature events: from an arbitrary state with an arbitrary history of pending events (pending logs that are NOT the list of live rows) the clone reports exactly the same pending created/destroyed events (light harness: its counterexamples replay)", bounds=b, assumes=a, features=("events",)),
         J("c17_clear_arch_clone_2", Q, 250, what="feature events: the clone carries the same pending created/destroyed events; clearing one side does not clear the other",
           bounds=b, assumes=a, features=("events",)),
     ]
@@ -526,11 +527,11 @@ def c17():
         j("c17_iter_destroy_2", Q, 200, "ecs_iter_destroy! logs each destruction once, in order"),
         j("c17_clear_arch_clone_2", Q, 250, "Archetype::clear_events empties both logs, nothing else changes; clone carries the pending events"),
         j("c17_clear_world_clone_1", T, 250, "World::clear_events"),
+        j("c17_clone_events_2", Q, 150, "the clone's pending events alone: equal to the original's for every history of pending events"),
         j("c17_clear_destroy_only_arch_2", Q, 200, "a window with destructions but no creations is cleared too (archetype level)"),
         j("c17_clear_destroy_only_world_2", T, 200, "same at world level"),
         j("c17_world_iter_created", Q, 150, "World::iter_created = concatenation over archetypes, exact size_hint at every position"),
         j("c17_world_iter_destroyed", T, 200, "World::iter_destroyed"),
-        Job(harness="c17big::c17big_world_iter_empty", tier=Q, cost=300, what="a world declaring the MAXIMUM of 256 archetypes, no events: one next() walks the u8 archetype cursor through all 256 archetypes and past the last; None, again None, exact size_hint (concrete program: decided is that no check on the way can fail)", bounds="256 archetypes, empty logs; events in a symbolic subset of archetypes exceeded 40 min of CBMC time and is outside", assumes=(), features=("events", "big_world"), timeout=2400),
         j("c17_world_iter_nth_created", Q, 300, "Iterator::nth (which an implementation could override to skip whole archetypes) on World::iter_created after a steps: same item as stepping with next(), exact size_hint afterwards, for jumps ending inside a log, exactly at its end, over empty logs, past the end"),
         j("c17_world_iter_nth_destroyed", T, 300, "same on World::iter_destroyed"),
         j("c17_world_iter_skip_created", Q, 300, "Iterator::skip on World::iter_created"),
@@ -581,9 +582,6 @@ def c19():
                 jobs.append(Job(harness=h, tier=tier, cost=cost, features=fs, debug_assertions=dbg, allowed=tuple(al), expect_fail=tuple(exp),
                                 what="core harness re-decided under features=%s debug_assertions=%s" % ("+".join(fs) or "default", dbg), bounds=b,
                                 assumes=(INV_ASSUME, "feature c32 of the harness crate = gecs feature 32_components")))
-    # the 256-archetype boundary of the generated world-level event iterator (u8 cursor): profile-dependent arithmetic
-    jobs.append(Job(harness="c17big::c17big_world_iter_empty", tier=Q, cost=300, features=("events", "big_world"), timeout=2400,
-                    what="events + a world declaring all 256 archetypes, overflow checks on: draining the world-level event iterators ends with None (no arithmetic panic at the u8 cursor's boundary)", bounds="256 archetypes, empty logs", assumes=()))
     return jobs
 
 
